@@ -30,6 +30,7 @@ class ExprParser:
         self.tolerant = tolerant
         self.slips: list[str] = []
         self.n_params = 0
+        self.saw_for_update = False
 
     # ---- token helpers
     @property
